@@ -37,6 +37,7 @@ type State struct {
 	discoverLoop *loopInfo
 	loopHeads    map[*ssa.BasicBlock]*State
 	euclidSeen   map[string]bool
+	havockedPrefixes []string
 }
 
 type rangeIter struct {
@@ -59,6 +60,7 @@ func (st *State) clone() *State {
 			n.euclidSeen[k] = v
 		}
 	}
+	n.havockedPrefixes = append([]string{}, st.havockedPrefixes...)
 	n.asm = st.asm[:len(st.asm):len(st.asm)]
 	n.locals = make(map[*ssa.Alloc]Value, len(st.locals))
 	for k, v := range st.locals {
@@ -139,6 +141,11 @@ func (st *State) heap(key string, sort Sort) Term {
 	name := "H_" + key
 	if st.epoch > 0 {
 		name = fmt.Sprintf("H%d_%s", st.epoch, key)
+	}
+	for i, p := range st.havockedPrefixes {
+		if strings.HasPrefix(key, p) {
+			name = fmt.Sprintf("Hk%d_%d_%s", st.epoch, i, key)
+		}
 	}
 	t := st.ex.ctx.Const(name, sort)
 	st.heaps[key] = t
@@ -230,6 +237,12 @@ func (st *State) load(l Loc) Value {
 // assumeHeaders adds well-formedness assumptions for slice headers inside a loaded value.
 func (st *State) assumeHeaders(v Value, t types.Type) {
 	switch x := v.(type) {
+	case If:
+		// the nil interface is (0, 0): a zero type tag carries no value
+		if _, lit := litVal(x.Typ); !lit && !st.ranged["if|"+x.Typ.S+"|"+x.Val.S] {
+			st.ranged["if|"+x.Typ.S+"|"+x.Val.S] = true
+			st.assume(tAnd(tLe(intLit(0), x.Typ), tImp(tEq(x.Typ, intLit(0)), tEq(x.Val, intLit(0)))))
+		}
 	case Sl:
 		st.sliceAssume(x)
 	case St:
